@@ -122,10 +122,22 @@ def build(env, spec):
     m = Model()
     pep = PEP()
     m.pep = pep
-    cls, p = class_params(env, spec['fclass'])
-    m.params.update(p)
-    f = pep.declare_function(cls, **p)
+    if spec.get('partition'):
+        from PEPit.functions import BlockSmoothConvexFunction
+        d = spec['partition']
+        part = pep.declare_block_partition(d=d)
+        m.partition = part
+        Ls = [env.real("L%d" % k, lo=0, lo_strict=True) for k in range(d)]
+        f = pep.declare_function(BlockSmoothConvexFunction, partition=part, L=Ls)
+        m.params.update({"L%d" % k: Ls[k] for k in range(d)})
+    else:
+        cls, p = class_params(env, spec['fclass'])
+        m.params.update(p)
+        f = pep.declare_function(cls, **p)
     m.functions.append(f)
+    if spec.get('unused'):
+        from PEPit.functions import ConvexFunction
+        m.functions.append(pep.declare_function(ConvexFunction))   # declared, never evaluated
     F = f
     h = None
     if spec.get('second'):
@@ -136,23 +148,29 @@ def build(env, spec):
         F = f + w * h
         m.functions.append(F)
         m.params.update(p2)
-    if spec.get('stationary', True):
-        xs = F.stationary_point()
-        fs = F.value(xs)
-    else:
-        xs = Point()
-        fs = Expression()
-    m.points['xs'] = xs
     x0 = pep.set_initial_point()
     m.points['x0'] = x0
     R = env.real("R")
-    c0 = ((x0 - xs) ** 2 <= R)
+    if spec.get('stationary', True):
+        xs = F.stationary_point()
+        fs = F.value(xs)
+        c0 = ((x0 - xs) ** 2 <= R)
+    else:
+        # no optimum declared by the user (classes that create their own stationary point while the class constraints
+        # are generated): bounded initial gradient, metric = decrease of the function value
+        xs = x0
+        g_init, fs = F.oracle(x0)
+        c0 = (g_init ** 2 <= R)
+    m.points['xs'] = xs
     pep.set_initial_condition(c0)
     m.constraints.append(c0)
     x = x0
     for si, st in enumerate(spec.get('steps', ['grad'])):
         gamma = env.real("gamma%d" % si)
-        if st == 'grad':
+        if st == 'grad' and spec.get('partition'):
+            g, fx = F.oracle(x)
+            x = x - gamma * m.partition.get_block(g, si % spec['partition'])
+        elif st == 'grad':
             g, fx = F.oracle(x)
             x = x - gamma * g
         elif st == 'prox':
@@ -182,7 +200,12 @@ def build(env, spec):
              'rge': lambda: s >= lhs, 'ee': lambda: lhs <= e}[ck]()
         pep.add_constraint(c)
         m.constraints.append(c)
+        if spec.get('dup'):
+            pep.add_constraint(c)           # the same constraint object declared twice
+            m.constraints.append(c)
     # LMIs
+    if spec.get('lmi_unadded') and spec.get('lmi_unadded_first'):
+        m.lmis_unadded.append(PSDMatrix([[e, 0], [0, 1]]))   # created first, never added to the problem
     pending = []
     for li, lk in enumerate(spec.get('lmis', [])):
         a = env.real("l%d" % li)
@@ -209,7 +232,7 @@ def build(env, spec):
         if spec.get('lmi_cap', False):
             pep.add_constraint(t <= 1)
             m.constraints.append(pep.list_of_constraints[-1])
-    if spec.get('lmi_unadded'):
+    if spec.get('lmi_unadded') and not spec.get('lmi_unadded_first'):
         m.lmis_unadded.append(PSDMatrix([[e, 0], [0, 1]]))
     if pending:
         order = list(reversed(pending)) if spec.get('lmi_reversed') else pending
@@ -217,8 +240,10 @@ def build(env, spec):
             pep.add_psd_matrix(pm)
             m.lmis.append(pm)
     # metrics
-    if fx is not None:
+    if fx is not None and spec.get('stationary', True):
         met = fx - fs
+    elif fx is not None:
+        met = fs - fx
     else:
         met = e
     if spec.get('lmis') and spec.get('lmi_metric', True):
